@@ -209,7 +209,41 @@ def resolve_sites(spec, regs, seq, blocked):
             continue
         alt = [c for c in "ACGT" if c not in (op[0], op[2])][t % 2]
         sites.append((p1, f"{op[0]}>{alt}", bool((t // 2) % 2), "snp", nm))
+    # echo insertions: a second catalogued insertion 26-60 bases 3' of an existing one, in the same region, whose inserted
+    # bases are the same as / a prefix of / a suffix of the first one's, carried by every allele that carries the first
+    sites = Sites(sites)
+    for t in spec.get("echo", []):
+        cand = [i for i, x in enumerate(sites) if x[3] == "ins" and i not in sites.links]
+        if not cand:
+            break
+        i = cand[t % len(cand)]
+        p1, op, func, kind, nm = sites[i]
+        ins = op[3:]
+        mode = (t // 7) % 3
+        e_ins = ins if mode == 0 or len(ins) == 1 else (ins[:max(1, len(ins) // 2)] if mode == 1 else ins[-max(1, len(ins) // 2):])
+        a, e = next((a, e) for n2, a, e in regs if n2 == nm)
+        for delta in range(26 + t % 20, 70):
+            p0 = p1 - 1 + delta
+            if p0 + 2 >= e or p0 + 2 >= L - 4:
+                break
+            if not spec.get("repeats") and (e_ins[0] == seq[p0 + 1] or e_ins[-1] == seq[p0]):
+                continue
+            lo, hi = p0 - margin, p0 + 2 + margin
+            if any(lo < th and tl < hi for tl, th in taken) or any(lo < bh and bl < hi for bl, bh in blocked):
+                continue
+            taken.append((lo, hi))
+            sites.links[i] = len(sites)
+            sites.append((p0 + 1, "ins" + e_ins, bool(t % 2), "ins", nm))
+            break
     return sites
+
+
+class Sites(list):
+    """Concrete sites; links = {site index: index of the site every carrier of it also carries}."""
+
+    def __init__(self, *a):
+        super().__init__(*a)
+        self.links = {}
 
 
 # ---------------------------------------------------------------------------------------------- build
@@ -292,6 +326,7 @@ def build(spec):
                 cand = [nm for nm in order if nm != "pce"]
                 sv = ("custom", tuple(sorted({cand[int(x) % len(cand)] for x in sv[1]})))
         idx = sorted({i % nsites for i in ad["sites"]}) if sites else []
+        idx = sorted(set(idx) | {sites.links[i] for i in idx if i in getattr(sites, "links", {})})
         if sv is not None and sv[0] == "del":
             idx = []
         # an allele only carries variants in regions its structure retains, and one variant per position
@@ -385,7 +420,7 @@ KINDS_READS = ["snp", "snp", "snp", "ins", "del", "mnp"]
 
 @st.composite
 def db_specs(draw, kinds=KINDS_READS, max_sites=10, max_alleles=9, sv=True, pseudo=None, dual_opposite=None, gaps=True,
-             chrs=("7",), stress=False, small=False, name="GA", force_sv=False, twins=False, orphan_core=False):
+             chrs=("7",), stress=False, small=False, name="GA", force_sv=False, twins=False, orphan_core=False, echo=False):
     n_ex = draw(st.integers(2, 3 if small else 4))
     elen = st.sampled_from([30, 45, 60, 90] if small else [30, 60, 90, 120, 150])
     ilen = st.integers(40, 90) if small else st.integers(40, 220)
@@ -430,6 +465,8 @@ def db_specs(draw, kinds=KINDS_READS, max_sites=10, max_alleles=9, sv=True, pseu
     if twins:
         spec["twins"] = draw(st.lists(st.integers(0, 40), min_size=1, max_size=2))
         ns += len(spec["twins"])
+    if echo and any(x[2] == "ins" for x in spec["sites"]) and draw(st.integers(0, 1)) == 0:
+        spec["echo"] = [draw(st.integers(0, 400))]
     plain = st.builds(lambda s, lab, dup, as_: {"sites": s, **({"label": lab} if lab else {}), **({"dup": True} if dup else {}),
                                                 **({"as": as_} if as_ is not None else {})},
                       st.lists(st.integers(0, ns - 1), min_size=1, max_size=4), st.sampled_from(["", "", "A", "B"]) if stress else st.just(""),
